@@ -993,4 +993,173 @@ end
 theorem beqEnc_refl (e : Enc) : beqEnc e e = true := by
   cases e <;> simp [beqEnc, beqJ_refl]
 
+/-! ### without recovered positions the round trip changes nothing `Pos()`/`End()` could see -/
+
+mutual
+  theorem canon_eq_forget : ∀ (v : Val), noRecovered v = true → noEmptySlice v = true → canon v = forget v
+    | .pos p, hr, _ => by
+      simp only [noRecovered, decide_eq_true_eq] at hr
+      simp only [canon, forget, dropPos, hr, if_false]
+    | .ptr v, hr, he => by
+      simp only [noRecovered] at hr; simp only [noEmptySlice] at he
+      simp only [canon, forget, canon_eq_forget v hr he]
+    | .iface v, hr, he => by
+      simp only [noRecovered] at hr; simp only [noEmptySlice] at he
+      simp only [canon, forget, canon_eq_forget v hr he]
+    | .slice [], _, he => by simp [noEmptySlice] at he
+    | .slice (e :: es), hr, he => by
+      simp only [noRecovered, noRecoveredL, Bool.and_eq_true] at hr
+      simp only [noEmptySlice, Bool.and_eq_true] at he
+      simp only [canon, forget, forgetL, canon_eq_forget e hr.1 he.1, canonL_eq_forgetL es hr.2 he.2]
+    | .struct name pe fs, hr, he => by
+      simp only [noRecovered] at hr; simp only [noEmptySlice] at he
+      simp only [canon, forget, canonF_eq_forgetF fs hr he]
+    | .bool _, _, _ => by simp only [canon, forget]
+    | .str _, _, _ => by simp only [canon, forget]
+    | .uint _ _ _, _, _ => by simp only [canon, forget]
+    | .nil, _, _ => by simp only [canon, forget]
+    | .inil, _, _ => by simp only [canon, forget]
+    | .snil, _, _ => by simp only [canon, forget]
+    | .other, _, _ => by simp only [canon, forget]
+  theorem canonL_eq_forgetL : ∀ (vs : List Val), noRecoveredL vs = true → noEmptySliceL vs = true →
+      canonL vs = forgetL vs
+    | [], _, _ => by simp only [canonL, forgetL]
+    | v :: vs, hr, he => by
+      simp only [noRecoveredL, Bool.and_eq_true] at hr
+      simp only [noEmptySliceL, Bool.and_eq_true] at he
+      simp only [canonL, forgetL, canon_eq_forget v hr.1 he.1, canonL_eq_forgetL vs hr.2 he.2]
+  theorem canonF_eq_forgetF : ∀ (fs : List (String × Val)), noRecoveredF fs = true → noEmptySliceF fs = true →
+      canonF fs = forgetF fs
+    | [], _, _ => by simp only [canonF, forgetF]
+    | (k, v) :: fs, hr, he => by
+      simp only [noRecoveredF, Bool.and_eq_true] at hr
+      simp only [noEmptySliceF, Bool.and_eq_true] at he
+      simp only [canonF, forgetF, canon_eq_forget v hr.1 he.1, canonF_eq_forgetF fs hr.2 he.2]
+end
+
+mutual
+  /-- every `Pos()`/`End()` function is stable on a tree without recovered positions -/
+  theorem peStable_of_noRecovered (ann : Ann) : ∀ (v : Val), noRecovered v = true → noEmptySlice v = true →
+      peStable ann v
+    | .ptr v, hr, he => by
+      simp only [noRecovered] at hr; simp only [noEmptySlice] at he
+      simp only [peStable]; exact peStable_of_noRecovered ann v hr he
+    | .iface v, hr, he => by
+      simp only [noRecovered] at hr; simp only [noEmptySlice] at he
+      simp only [peStable]; exact peStable_of_noRecovered ann v hr he
+    | .slice [], _, he => by simp [noEmptySlice] at he
+    | .slice (e :: es), hr, he => by
+      simp only [noRecovered, noRecoveredL, Bool.and_eq_true] at hr
+      simp only [noEmptySlice, Bool.and_eq_true] at he
+      simp only [peStable, peStableL]
+      exact ⟨peStable_of_noRecovered ann e hr.1 he.1, peStableL_of_noRecovered ann es hr.2 he.2⟩
+    | .struct name pe fs, hr, he => by
+      simp only [noRecovered] at hr; simp only [noEmptySlice] at he
+      simp only [peStable]
+      exact ⟨by rw [canonF_eq_forgetF fs hr he], peStableF_of_noRecovered ann fs hr he⟩
+    | .pos _, _, _ => by simp only [peStable]
+    | .bool _, _, _ => by simp only [peStable]
+    | .str _, _, _ => by simp only [peStable]
+    | .uint _ _ _, _, _ => by simp only [peStable]
+    | .nil, _, _ => by simp only [peStable]
+    | .inil, _, _ => by simp only [peStable]
+    | .snil, _, _ => by simp only [peStable]
+    | .other, _, _ => by simp only [peStable]
+  theorem peStableL_of_noRecovered (ann : Ann) : ∀ (vs : List Val), noRecoveredL vs = true →
+      noEmptySliceL vs = true → peStableL ann vs
+    | [], _, _ => by simp only [peStableL]
+    | v :: vs, hr, he => by
+      simp only [noRecoveredL, Bool.and_eq_true] at hr
+      simp only [noEmptySliceL, Bool.and_eq_true] at he
+      simp only [peStableL]
+      exact ⟨peStable_of_noRecovered ann v hr.1 he.1, peStableL_of_noRecovered ann vs hr.2 he.2⟩
+  theorem peStableF_of_noRecovered (ann : Ann) : ∀ (fs : List (String × Val)), noRecoveredF fs = true →
+      noEmptySliceF fs = true → peStableF ann fs
+    | [], _, _ => by simp only [peStableF]
+    | (k, v) :: fs, hr, he => by
+      simp only [noRecoveredF, Bool.and_eq_true] at hr
+      simp only [noEmptySliceF, Bool.and_eq_true] at he
+      simp only [peStableF]
+      exact ⟨peStable_of_noRecovered ann v hr.1 he.1, peStableF_of_noRecovered ann fs hr.2 he.2⟩
+end
+
+mutual
+  theorem canon_eq_nilEmpty : ∀ (v : Val), noRecovered v = true → canon v = nilEmpty v
+    | .pos p, hr => by
+      simp only [noRecovered, decide_eq_true_eq] at hr
+      simp only [canon, nilEmpty, dropPos, hr, if_false]
+    | .ptr v, hr => by
+      simp only [noRecovered] at hr
+      simp only [canon, nilEmpty, canon_eq_nilEmpty v hr]
+    | .iface v, hr => by
+      simp only [noRecovered] at hr
+      simp only [canon, nilEmpty, canon_eq_nilEmpty v hr]
+    | .slice [], _ => by simp only [canon, nilEmpty]
+    | .slice (e :: es), hr => by
+      simp only [noRecovered, noRecoveredL, Bool.and_eq_true] at hr
+      simp only [canon, nilEmpty, canon_eq_nilEmpty e hr.1, canonL_eq_nilEmptyL es hr.2]
+    | .struct name pe fs, hr => by
+      simp only [noRecovered] at hr
+      simp only [canon, nilEmpty, canonF_eq_nilEmptyF fs hr]
+    | .bool _, _ => by simp only [canon, nilEmpty]
+    | .str _, _ => by simp only [canon, nilEmpty]
+    | .uint _ _ _, _ => by simp only [canon, nilEmpty]
+    | .nil, _ => by simp only [canon, nilEmpty]
+    | .inil, _ => by simp only [canon, nilEmpty]
+    | .snil, _ => by simp only [canon, nilEmpty]
+    | .other, _ => by simp only [canon, nilEmpty]
+  theorem canonL_eq_nilEmptyL : ∀ (vs : List Val), noRecoveredL vs = true → canonL vs = nilEmptyL vs
+    | [], _ => by simp only [canonL, nilEmptyL]
+    | v :: vs, hr => by
+      simp only [noRecoveredL, Bool.and_eq_true] at hr
+      simp only [canonL, nilEmptyL, canon_eq_nilEmpty v hr.1, canonL_eq_nilEmptyL vs hr.2]
+  theorem canonF_eq_nilEmptyF : ∀ (fs : List (String × Val)), noRecoveredF fs = true →
+      canonF fs = nilEmptyF fs
+    | [], _ => by simp only [canonF, nilEmptyF]
+    | (k, v) :: fs, hr => by
+      simp only [noRecoveredF, Bool.and_eq_true] at hr
+      simp only [canonF, nilEmptyF, canon_eq_nilEmpty v hr.1, canonF_eq_nilEmptyF fs hr.2]
+end
+
+mutual
+  /-- a slice-blind `Pos()`/`End()` function is stable on every tree without recovered positions -/
+  theorem peStable_of_blind (ann : Ann) (hb : annSliceBlind ann) : ∀ (v : Val), noRecovered v = true →
+      peStable ann v
+    | .ptr v, hr => by
+      simp only [noRecovered] at hr
+      simp only [peStable]; exact peStable_of_blind ann hb v hr
+    | .iface v, hr => by
+      simp only [noRecovered] at hr
+      simp only [peStable]; exact peStable_of_blind ann hb v hr
+    | .slice vs, hr => by
+      simp only [noRecovered] at hr
+      simp only [peStable]; exact peStableL_of_blind ann hb vs hr
+    | .struct name pe fs, hr => by
+      simp only [noRecovered] at hr
+      simp only [peStable]
+      exact ⟨by rw [canonF_eq_nilEmptyF fs hr]; exact hb name fs, peStableF_of_blind ann hb fs hr⟩
+    | .pos _, _ => by simp only [peStable]
+    | .bool _, _ => by simp only [peStable]
+    | .str _, _ => by simp only [peStable]
+    | .uint _ _ _, _ => by simp only [peStable]
+    | .nil, _ => by simp only [peStable]
+    | .inil, _ => by simp only [peStable]
+    | .snil, _ => by simp only [peStable]
+    | .other, _ => by simp only [peStable]
+  theorem peStableL_of_blind (ann : Ann) (hb : annSliceBlind ann) : ∀ (vs : List Val),
+      noRecoveredL vs = true → peStableL ann vs
+    | [], _ => by simp only [peStableL]
+    | v :: vs, hr => by
+      simp only [noRecoveredL, Bool.and_eq_true] at hr
+      simp only [peStableL]
+      exact ⟨peStable_of_blind ann hb v hr.1, peStableL_of_blind ann hb vs hr.2⟩
+  theorem peStableF_of_blind (ann : Ann) (hb : annSliceBlind ann) : ∀ (fs : List (String × Val)),
+      noRecoveredF fs = true → peStableF ann fs
+    | [], _ => by simp only [peStableF]
+    | (k, v) :: fs, hr => by
+      simp only [noRecoveredF, Bool.and_eq_true] at hr
+      simp only [peStableF]
+      exact ⟨peStable_of_blind ann hb v hr.1, peStableF_of_blind ann hb fs hr.2⟩
+end
+
 end ShVerif.C15
